@@ -193,6 +193,7 @@ def resolve (sha : Bytes → H) (env : Version → Attempt D) (st : RState H) :
 inductive Callback (D : Type) where
   | update (d : D)
   | reportError (c : ErrClass)
+deriving DecidableEq, Repr
 
 /-- The callback part of one iteration of `watch`. -/
 def callbacksOf : MethodResult D → List (Callback D)
@@ -273,20 +274,25 @@ structure W where
   fired : List Nat
   /-- generations whose channel is closed -/
   closed : List Nat
-  callers : List Caller
+  /-- every natural number names a potential `ResolveNow` call (any number of callers);
+      calls that have not begun are at `start` -/
+  callers : Nat → Caller
   closer : ClPc
   /-- `PollManually`: the timer case of the select is a nil channel -/
   manual : Bool
   /-- ghost: number of polls started -/
   polls : Nat
+  /-- ghost: number of `ResolveNow` calls begun (the driver uses it as the next fresh caller id) -/
+  loads : Nat
   /-- ghost: a watcher callback happened after `Close` returned -/
   cbAfterClose : Bool
-deriving Repr
+
+def Caller.fresh : Caller := { pc := .start, gen := 0, served := false }
 
 /-- State after `Build` returned: generation 0 armed, poller at the top of its loop. -/
 def W.init (manual : Bool) : W :=
-  { ppc := .top, cur := 0, ptr := 0, fired := [], closed := [], callers := [], closer := .idle,
-    manual := manual, polls := 0, cbAfterClose := false }
+  { ppc := .top, cur := 0, ptr := 0, fired := [], closed := [], callers := fun _ => Caller.fresh, closer := .idle,
+    manual := manual, polls := 0, loads := 0, cbAfterClose := false }
 
 inductive Lbl where
   /-- poller: enter `resolve()` -/
@@ -305,9 +311,7 @@ inductive Lbl where
   | storePtr
   /-- poller: `close(r.done); return` -/
   | closeDone
-  /-- a new `ResolveNow` call begins -/
-  | spawn
-  /-- caller `i`: `r.notifyResolveNow.Load()` -/
+  /-- caller `i` begins: `r.notifyResolveNow.Load()` -/
   | load (i : Nat)
   /-- caller `i`: the `sync.Once` test-and-set of its generation -/
   | fire (i : Nat)
@@ -319,8 +323,11 @@ inductive Lbl where
   | closeRet
 deriving DecidableEq, Repr
 
-def serveAll (cs : List Caller) : List Caller :=
-  cs.map (fun c => if c.pc = .start then c else { c with served := true })
+def setCaller (f : Nat → Caller) (i : Nat) (c : Caller) : Nat → Caller := fun j => if j = i then c else f j
+
+/-- ghost update at a poll start: every call that has loaded its pointer is now served -/
+def serveAll (f : Nat → Caller) : Nat → Caller :=
+  fun j => if (f j).pc = .start then f j else { f j with served := true }
 
 def step (s : W) : Lbl → Option W
   | .pollStart =>
@@ -341,41 +348,38 @@ def step (s : W) : Lbl → Option W
     if s.ppc = .madeChan then some { s with ppc := .top, ptr := s.cur } else none
   | .closeDone =>
     if s.ppc = .gotDone then some { s with ppc := .exited } else none
-  | .spawn => some { s with callers := s.callers ++ [{ pc := .start, gen := 0, served := false }] }
   | .load i =>
-    match s.callers[i]? with
-    | some c => if c.pc = .start then
-        some { s with callers := s.callers.set i { pc := .loaded, gen := s.ptr, served := false } } else none
-    | none => none
+    if (s.callers i).pc = .start then
+      some { s with callers := setCaller s.callers i { pc := .loaded, gen := s.ptr, served := false },
+                    loads := s.loads + 1 }
+    else none
   | .fire i =>
-    match s.callers[i]? with
-    | some c => if c.pc = .loaded then
-        (if c.gen ∈ s.fired then some { s with callers := s.callers.set i { c with pc := .finished } }
-         else some { s with fired := c.gen :: s.fired, callers := s.callers.set i { c with pc := .won } })
-      else none
-    | none => none
+    if (s.callers i).pc = .loaded then
+      (if (s.callers i).gen ∈ s.fired then
+         some { s with callers := setCaller s.callers i { s.callers i with pc := .finished } }
+       else some { s with fired := (s.callers i).gen :: s.fired,
+                          callers := setCaller s.callers i { s.callers i with pc := .won } })
+    else none
   | .closeCh i =>
-    match s.callers[i]? with
-    | some c => if c.pc = .won then
-        some { s with closed := c.gen :: s.closed, callers := s.callers.set i { c with pc := .finished } } else none
-    | none => none
+    if (s.callers i).pc = .won then
+      some { s with closed := (s.callers i).gen :: s.closed,
+                    callers := setCaller s.callers i { s.callers i with pc := .finished } }
+    else none
   | .closeCall =>
     if s.closer = .idle then some { s with closer := .sending } else none
   | .closeRet =>
     if s.closer = .sent then some { s with closer := .returned } else none
 
 /-- One whole `ResolveNow()` call executed without interleaving (as the harness performs it):
-    spawn ; load ; fire ; (closeCh). -/
+    load ; fire ; (closeCh if it won the once). -/
 def resolveNowAtomic (s : W) : Option W :=
-  let i := s.callers.length
-  match step s .spawn with
+  let i := s.loads
+  match step s (.load i) with
   | none => none
-  | some s1 => match step s1 (.load i) with
+  | some s2 => match step s2 (.fire i) with
     | none => none
-    | some s2 => match step s2 (.fire i) with
-      | none => none
-      | some s3 => match step s3 (.closeCh i) with
-        | some s4 => some s4
-        | none => some s3
+    | some s3 => match step s3 (.closeCh i) with
+      | some s4 => some s4
+      | none => some s3
 
 end GB.C15
